@@ -22,7 +22,7 @@ RULE = ("CFmt: sources built from lexeme lists (imports, includes, 1-4 rules wit
         "heavily commented with //, /* */ and multi-line comments in every gap, one-line, CRLF+tabs), non-ASCII in comments and literals; "
         "20% token-level mutations (delete/dup/swap/garbage/truncate), 10% byte-level mutations incl. invalid UTF-8; each under 2 rows of a "
         "pairwise covering array over the 7 boolean options x 6 indentations x 4 input tab sizes (+ random rows); checked per case: no "
-        "panic/hang, significant tokens of output = input, modified flag = (output != input), second pass changes nothing, input and output compile alike (same error codes, or same verdicts and matches on 3 buffers). "
+        "panic/hang, significant tokens of output = input, modified flag = (output != input), second pass changes nothing, input and output compile alike (same error codes, or same verdicts and matches on 3 buffers; every third case in the quick tier). "
         "CStage: the real CommentProcessor (5 tab sizes) / FormatHexPatterns / Align / AddIndentation (5 settings) / RemoveTrailingSpaces vs "
         "Fmt/Stages.v token for token, on real token streams (raw, or after the real comment and whitespace-dropping stages) with control "
         "tokens, spaces and line breaks sprinkled in (alignment blocks incl. unbalanced/nested/empty ones). "
@@ -39,7 +39,7 @@ def classify(case):
 
 def run_k(run, tier, seed, drv):
     if tier == "quick":
-        args = ["--seed", seed, "--n", 1200, "--n-proc", 400, "--n-stage", 400, "--opts", 2]
+        args = ["--seed", seed, "--n", 1200, "--n-proc", 400, "--n-stage", 400, "--opts", 2, "--behaviour-every", 3]
     else:
         args = ["--seed", seed, "--n", 24000, "--n-proc", 5000, "--n-stage", 6000, "--opts", 4]
     info = standard_k(run, drv, "C15", "c15", args, "K_C15_processor_bubble_stages_categories", classify, max_report=60)
